@@ -114,7 +114,7 @@ func c5EnabledCheap(c *Ctx, impls []*types.Named) {
 		switch {
 		case strings.HasSuffix(full, "zapcore.Core).With"), strings.HasSuffix(full, "zapcore.Core).Write"), strings.HasSuffix(full, "zapcore.Core).Sync"), strings.HasSuffix(full, "zapcore.Core).Check"):
 			return full
-		case f.Name() == "AddTo" && strings.Contains(full, "zapcore.Field"), full == "go.uber.org/zap/zapcore.addFields":
+		case FNm(f) == "AddTo" && strings.Contains(full, "zapcore.Field"), full == "go.uber.org/zap/zapcore.addFields":
 			return full
 		case strings.Contains(full, "zapcore.Encoder)."), strings.Contains(full, "zapcore.ObjectEncoder)."), strings.Contains(full, "zapcore.WriteSyncer)."), full == "(io.Writer).Write":
 			return full
@@ -142,7 +142,7 @@ func c5EnabledCheap(c *Ctx, impls []*types.Named) {
 				seen[g] = true
 				for _, cl := range Calls(g) {
 					if h := heavy(cl); h != "" {
-						bad = append(bad, g.Name()+" calls "+h)
+						bad = append(bad, FNm(g)+" calls "+h)
 						continue
 					}
 					if sc := StaticCallee(cl); sc != nil {
@@ -152,12 +152,12 @@ func c5EnabledCheap(c *Ctx, impls []*types.Named) {
 			}
 		}
 		rec(fn, 0)
-		c.Check(len(bad) == 0, "R5.7", fn.String(), "cheap", fn.Pos(), "nothing reachable from Enabled (%d zap functions incl. closures) derives a core, marshals a field, runs a hook or touches an encoder or sink, so a disabled entry costs none of those: %v", len(seen), bad)
+		c.Check(len(bad) == 0, "R5.7", FStr(fn), "cheap", fn.Pos(), "nothing reachable from Enabled (%d zap functions incl. closures) derives a core, marshals a field, runs a hook or touches an encoder or sink, so a disabled entry costs none of those: %v", len(seen), bad)
 	}
 }
 
 func c5Check(c *Ctx, tn, class string, fn *ssa.Function) {
-	name := fn.String()
+	name := FStr(fn)
 	if len(fn.Params) != 3 {
 		c.Und("R5.1", name, "params", fn.Pos(), "unexpected parameter list")
 		return
@@ -348,7 +348,7 @@ var frontEndPkgs = map[string]bool{
 
 func isEnabledCall(cl ssa.CallInstruction) bool {
 	f := CalleeFunc(cl)
-	if f == nil || f.Name() != "Enabled" {
+	if f == nil || FNm(f) != "Enabled" {
 		return false
 	}
 	sig := f.Type().(*types.Signature)
@@ -398,7 +398,7 @@ func c5PreChecks(c *Ctx) {
 			if strings.HasSuffix(recvD, ".addStack") {
 				continue // stack-trace threshold, not a delivery filter (C15)
 			}
-			name := fn.String()
+			name := FStr(fn)
 			slot := "precheck/" + recvD
 			if why, ok := exempt[name]; ok {
 				c.Triv("R5.2", name, slot, call.Pos(), "exempt: %s", why)
@@ -473,7 +473,7 @@ func c5PreChecks(c *Ctx) {
 								idx = i
 							}
 						}
-						sites := c.CallersOf(x.Parent().String())
+						sites := c.CallersOf(FStr(x.Parent()))
 						if idx < 0 || len(sites) == 0 {
 							return false
 						}
@@ -517,7 +517,7 @@ func c5Levels(c *Ctx, impls []*types.Named) {
 	for _, fn := range c.MethodsNamed("Level", func(sig *types.Signature) bool {
 		return sig.Params().Len() == 0 && sig.Results().Len() == 1 && TypeName(sig.Results().At(0).Type()) == "zapcore.Level"
 	}) {
-		name := fn.String()
+		name := FStr(fn)
 		rn := RecvNamed(fn)
 		if rn == nil {
 			continue
@@ -572,7 +572,7 @@ func c5Levels(c *Ctx, impls []*types.Named) {
 					d = Desc(call.Call.Args[0])
 					// argument is a field of the receiver (wrapped core or own enabler)
 					ok = strings.HasPrefix(d, PN(fn.Params[0])+".")
-				} else if isCall && call.Call.StaticCallee() != nil && call.Call.StaticCallee().Name() == "Level" && len(call.Call.Args) == 1 {
+				} else if isCall && call.Call.StaticCallee() != nil && FNm(call.Call.StaticCallee()) == "Level" && len(call.Call.Args) == 1 {
 					// ... or delegates to the Level() of the object it wraps (itself decided here)
 					d = Desc(call.Call.Args[0])
 					ok = strings.HasPrefix(d, PN(fn.Params[0])+".")
@@ -586,13 +586,13 @@ func c5Levels(c *Ctx, impls []*types.Named) {
 	ll := c.Method(ZapPath, "Logger", "Level")
 	if c.Anchor("R5.3", "zap.Logger.Level", ll != nil) {
 		for k, r := range Returns(ll) {
-			c.Check(Desc(RetVals(r)[0]) == "LevelOf(log.core)", "R5.3", ll.String(), "return#"+itoa(k+1), r.Pos(), "Logger.Level reports LevelOf of the live core (%s)", Desc(RetVals(r)[0]))
+			c.Check(Desc(RetVals(r)[0]) == "LevelOf(log.core)", "R5.3", FStr(ll), "return#"+itoa(k+1), r.Pos(), "Logger.Level reports LevelOf of the live core (%s)", Desc(RetVals(r)[0]))
 		}
 	}
 	// LevelOf
 	lo := c.Func(CorePath, "LevelOf")
 	if c.Anchor("R5.3", "zapcore.LevelOf", lo != nil) {
-		name := lo.String()
+		name := FStr(lo)
 		// Path exploration with the loop counter evident on every path: which levels are probed, in which order,
 		// and what is returned after each possible sequence of answers.
 		seqs, trunc := ConcPaths(lo, ConcCfg{
@@ -607,7 +607,7 @@ func c5Levels(c *Ctx, impls []*types.Named) {
 						}
 						return "probe(?" + st.Desc(a[len(a)-1]) + ")"
 					}
-					if f := CalleeFunc(x); f != nil && f.Name() == "Level" && x.Call.IsInvoke() {
+					if f := CalleeFunc(x); f != nil && FNm(f) == "Level" && x.Call.IsInvoke() {
 						return "own-level"
 					}
 				case *ssa.Return:
@@ -617,7 +617,7 @@ func c5Levels(c *Ctx, impls []*types.Named) {
 					rv := Strip(x.Results[0])
 					for k := 0; k < 8; k++ {
 						if rc, ok := rv.(*ssa.Call); ok {
-							if f := CalleeFunc(rc); f != nil && f.Name() == "Level" && rc.Call.IsInvoke() {
+							if f := CalleeFunc(rc); f != nil && FNm(f) == "Level" && rc.Call.IsInvoke() {
 								return "ret(own-level)"
 							}
 						}
@@ -739,7 +739,7 @@ func c5Increase(c *Ctx) {
 	if !c.Anchor("R5.4", "zapcore.NewIncreaseLevelCore", fn != nil) {
 		return
 	}
-	name := fn.String()
+	name := FStr(fn)
 	coreP, lvlP := fn.Params[0], fn.Params[1]
 	var probeCore, probeLvl *ssa.Call
 	for _, cl := range CallsDeep(fn) {
@@ -853,10 +853,10 @@ func c5WriteGuard(c *Ctx) {
 			ok := HasAtom(Guards(cl), func(s string) bool { return s == want })
 			if !ok && ceWriteNilSafe(c) {
 				// no test at the call site: Write makes it itself, before anything else
-				c.OK("R5.5", fn.String(), "write-under-nonnil", cl.Pos(), "ce.Write is called on whatever the check returned; CheckedEntry.Write returns at once, without touching anything, when its receiver is nil (decided by exploring Write with a nil receiver)")
+				c.OK("R5.5", FStr(fn), "write-under-nonnil", cl.Pos(), "ce.Write is called on whatever the check returned; CheckedEntry.Write returns at once, without touching anything, when its receiver is nil (decided by exploring Write with a nil receiver)")
 				continue
 			}
-			c.Check(ok, "R5.5", fn.String(), "write-under-nonnil", cl.Pos(), "ce.Write (and the evaluation of its field arguments in the same block) happens only under %s (guards %v)", want, AtomStrings(Guards(cl)))
+			c.Check(ok, "R5.5", FStr(fn), "write-under-nonnil", cl.Pos(), "ce.Write (and the evaluation of its field arguments in the same block) happens only under %s (guards %v)", want, AtomStrings(Guards(cl)))
 		}
 	})
 }
@@ -940,7 +940,7 @@ func c5Atomic(c *Ctx) {
 		if len(bad) > 3 {
 			bad = append(bad[:3:3], "…")
 		}
-		c.Check(len(bad) == 0 && n >= len(levels)*len(levels), "R5.6", en.String(), "rereads", en.Pos(), "Enabled(l) loads the current level once, on this very call, and answers l >= current - evaluated for every pair of levels in -2..6 (%d evaluations): %v", n, bad)
+		c.Check(len(bad) == 0 && n >= len(levels)*len(levels), "R5.6", FStr(en), "rereads", en.Pos(), "Enabled(l) loads the current level once, on this very call, and answers l >= current - evaluated for every pair of levels in -2..6 (%d evaluations): %v", n, bad)
 	}
 	{
 		var bad []string
@@ -951,7 +951,7 @@ func c5Atomic(c *Ctx) {
 				bad = append(bad, sq)
 			}
 		}
-		c.Check(!trunc && len(seqs) >= len(levels) && len(bad) == 0, "R5.6", lv.String(), "atomic-load", lv.Pos(), "Level() is one atomic Load and returns exactly the level loaded (every level -2..6): %v", bad)
+		c.Check(!trunc && len(seqs) >= len(levels) && len(bad) == 0, "R5.6", FStr(lv), "atomic-load", lv.Pos(), "Level() is one atomic Load and returns exactly the level loaded (every level -2..6): %v", bad)
 	}
 	{
 		var bad []string
@@ -987,7 +987,7 @@ func c5Atomic(c *Ctx) {
 				bad = append(bad, "exploration incomplete")
 			}
 		}
-		c.Check(len(bad) == 0 && n >= len(levels), "R5.6", sl.String(), "atomic-store", sl.Pos(), "SetLevel(l) is one atomic Store of exactly l into the shared cell (every level -2..6): %v", bad)
+		c.Check(len(bad) == 0 && n >= len(levels), "R5.6", FStr(sl), "atomic-store", sl.Pos(), "SetLevel(l) is one atomic Store of exactly l into the shared cell (every level -2..6): %v", bad)
 	}
 	c5PointerStable(c, "R5.6")
 	// hook lists: registering hooks on a hooked core never shares the parent's slice tail (a sibling's hook would be
@@ -1173,7 +1173,7 @@ func cKeepsAll(c *Ctx, rule string, fn *ssa.Function, anchor, empty string) {
 			},
 		})
 		if trunc || len(seqs) == 0 {
-			c.Und(rule, fn.String(), "keeps-every-core", fn.Pos(), "path exploration incomplete for %d cores", N)
+			c.Und(rule, FStr(fn), "keeps-every-core", fn.Pos(), "path exploration incomplete for %d cores", N)
 			return
 		}
 		for _, sq := range seqs {
@@ -1207,7 +1207,7 @@ func cKeepsAll(c *Ctx, rule string, fn *ssa.Function, anchor, empty string) {
 	if len(bad) > 3 {
 		bad = append(bad[:3:3], "… "+itoa(len(bad)-3)+" more")
 	}
-	c.Check(len(bad) == 0, rule, fn.String(), "keeps-every-core", fn.Pos(), "over %d paths for 0..3 cores: none → the no-op core, one → that core itself, more → a tee over all of them in order, on every path: %v", paths, bad)
+	c.Check(len(bad) == 0, rule, FStr(fn), "keeps-every-core", fn.Pos(), "over %d paths for 0..3 cores: none → the no-op core, one → that core itself, more → a tee over all of them in order, on every path: %v", paths, bad)
 }
 
 // c5PointerStable: see the comment inside.
@@ -1244,7 +1244,7 @@ func c5PointerStable(c *Ctx, rule string) {
 				var g []string
 				Bound(func() { g = AtomStrings(Guards(stI)) })
 				lazy := containsS(g, PN(recv)+".l == nil")
-				c.Check(lazy, rule, fn.String(), "pointer-stable#"+itoa(k), stI.Pos(), "a store through the *AtomicLevel receiver (%s) happens only where no counter existed yet (guards %v); replacing the counter detaches every logger built from an earlier copy, which then never sees later level changes", Desc(stI.Addr), g)
+				c.Check(lazy, rule, FStr(fn), "pointer-stable#"+itoa(k), stI.Pos(), "a store through the *AtomicLevel receiver (%s) happens only where no counter existed yet (guards %v); replacing the counter detaches every logger built from an earlier copy, which then never sees later level changes", Desc(stI.Addr), g)
 			})
 		}
 	}
@@ -1331,7 +1331,7 @@ func c5IncreaseOption(c *Ctx, rule string) {
 			bad = append(bad, sq)
 		}
 	}
-	c.Check(!trunc && len(seqs) >= 2 && len(bad) == 0, rule, fn.String(), "always-filters", fn.Pos(), "every path of the option asks NewIncreaseLevelCore(log.core, lvl) and installs the result exactly when it was built (%d paths; offending: %v)", len(seqs), bad)
+	c.Check(!trunc && len(seqs) >= 2 && len(bad) == 0, rule, FStr(fn), "always-filters", fn.Pos(), "every path of the option asks NewIncreaseLevelCore(log.core, lvl) and installs the result exactly when it was built (%d paths; offending: %v)", len(seqs), bad)
 }
 
 // c5LevelValues: the Level constants by their short names (Debug … Fatal).
